@@ -340,6 +340,7 @@ func genPlan(r *hutil.Rng, stream string, seed uint64, idx int) *Plan {
 		dv = true
 	}
 	p.Config.DataValidation, p.Config.OnlyCareUpdateColumns = &dv, &oc
+	p.Config.StepLimitMs = 1500 // a step that blocks (a transaction left open by a broken rollback) is an observable, not a wait
 	nt := 1
 	if r.Chance(1, 4) {
 		nt = 2
